@@ -1283,6 +1283,13 @@ def _single_expr(callee):
     _guard_clauses(c)
     c = _Canon().visit(c)
     real = [x for x in c.body if not (isinstance(x, ast.Expr) and isinstance(x.value, ast.Constant))]
+    # `try: return A  except E: return B`  ==  `B if __raised__(E) else A` (an opaque test: which of the two happens is not known statically)
+    if len(real) == 1 and isinstance(real[0], ast.Try) and not real[0].orelse and not real[0].finalbody and len(real[0].body) == 1 and isinstance(real[0].body[0], ast.Return) \
+            and real[0].body[0].value is not None and real[0].handlers and all(len(h.body) == 1 and isinstance(h.body[0], ast.Return) and h.body[0].value is not None and h.name is None for h in real[0].handlers):
+        e_ = real[0].body[0].value
+        for h in reversed(real[0].handlers):
+            e_ = ast.IfExp(test=ast.Call(func=ast.Name(id="__raised__", ctx=ast.Load()), args=[h.type] if h.type is not None else [], keywords=[]), body=h.body[0].value, orelse=e_)
+        return e_
     if len(real) > 1 and isinstance(real[-1], ast.Return) and real[-1].value is not None and all(
             isinstance(x, (ast.Assign, ast.AnnAssign)) and (isinstance(x.targets[0] if isinstance(x, ast.Assign) else x.target, ast.Name) or (
                 isinstance(x, ast.Assign) and len(x.targets) == 1 and isinstance(x.targets[0], ast.Tuple) and all(isinstance(t_, ast.Name) for t_ in x.targets[0].elts))) for x in real[:-1]):
